@@ -1,15 +1,18 @@
 """
 C03 — every produced image satisfies the on-disk invariants other readers rely on.
 
-Proof: Sqfs/Props/C03.lean (models of the writer's pieces: dir writer header runs, meta writer chunking, block size
-rule under the codec contract, id table bound; all inputs).  Tie:
-  (1) harness/h_c03.c runs the real get_conseq_entry_count / sqfs_dir_writer_* / sqfs_meta_writer_* / process_block /
-      sqfs_id_table_* (ASan+UBSan, working tree) on the same generated lines as `sqfsmodel c03 ops`; independent
-      Python monitors evaluate the specification on the implementation's answers;
+Proof: Sqfs/Props/C03.lean (models of the writer's pieces: dir writer header runs and index on the real meta writer model,
+export table, sorted insertion into a directory, meta writer chunking, write_table locations, block size rule and size word
+under the codec contract, id table bound, inode numbering incl. reorder_hard_links, file inode thresholds, layout/padding;
+all inputs).  Tie:
+  (1) harness/h_c03.c, h_c03n.c, h_c03f.c run the real functions (#included or linked from the working tree, ASan+UBSan) on
+      the same generated lines as `sqfsmodel c03 ops`; independent Python monitors evaluate the specification on the
+      implementation's answers; one answer per line is enforced on both sides;
   (2) every backend's do_block is probed against the size contract the theorems assume;
   (3) real gensquashfs / tar2sqfs build images from generated trees hitting the quantifier's boundaries; each image goes
       through harness/unz.c -> `sqfsmodel c03 validate` (the executable invariant list, written from format.adoc) which
-      must report nothing, and `sqfsmodel c03 parse` is compared with the generated tree and with rdsquashfs.
+      must report nothing; `sqfsmodel c03 parse` is compared with the generated tree (attributes, link counts, xattrs, every
+      file's content reassembled from the unpacked blocks) and with rdsquashfs.
 """
 import concurrent.futures as cf
 import io, json, os, struct, subprocess, tarfile, time
@@ -24,7 +27,7 @@ REQUIRED = ["Sqfs.C03.conseq_count_ok", "Sqfs.C03.dir_end_headers_ok", "Sqfs.C03
             "Sqfs.C03.inode_numbers_bijective", "Sqfs.C03.children_before_parent", "Sqfs.C03.dir_index_count_exact",
             "Sqfs.C03.dir_index_points_at_headers", "Sqfs.C03.export_table_resolves", "Sqfs.C03.write_table_locations",
             "Sqfs.C03.keep_in_memory_same_blocks", "Sqfs.C03.listing_strictly_sorted",
-            "Sqfs.C03.inode_numbers_dense_after_reorder_partial", "Sqfs.C03.file_inode_values_exact"]
+            "Sqfs.C03.inode_numbers_dense_after_reorder", "Sqfs.C03.link_targets_before_linking_dirs", "Sqfs.C03.file_inode_values_exact"]
 
 K_D11 = "D11:lz4-block-not-smaller"
 K_D8 = "D8:id-count-wraps"
@@ -721,7 +724,7 @@ def monitor_pad(m, ans):
 MONITORS = {"conseq": monitor_conseq, "meta": monitor_meta, "blk": monitor_blk, "ids": monitor_ids, "idsrange": monitor_idsrange,
             "table": monitor_table, "metak": monitor_metak, "dirx": monitor_dirx, "names": monitor_names, "pad": monitor_pad,
             "fino": monitor_fino}
-HARNESS_OF = {"names": "h_c03n", "pad": "h_c03f"}       # every other op: h_c03
+HARNESS_OF = {"names": "h_c03n", "num": "h_c03n", "pad": "h_c03f"}       # every other op: h_c03
 
 
 def gen_spec(rng, depth, width, hl):
@@ -924,7 +927,6 @@ def pieces(ctx, harnesses):
         # D8 replay: 65536 distinct ids (slow in the list-based model, run concurrently)
         fut_d8i = ex.submit(run_harness, ctx, harnesses["h_c03"], d8_lines)
         fut_d8m = ex.submit(driver_lines, ctx, d8_lines)
-        fut_d8o = ex.submit(driver_lines, ctx, [l.replace("idsrange", "idsrangeold") for l in d8_lines])
         for key, fu in futs.items():
             a, b, crash = fu.result()
             idx = groups[key]
@@ -934,7 +936,7 @@ def pieces(ctx, harnesses):
             for i, x, y in zip_strict(idx, a[:len(idx)], b):
                 impl[i], model[i] = x, y
         d8i, d8crash = fut_d8i.result()
-        d8m, d8o = fut_d8m.result(), fut_d8o.result()
+        d8m = fut_d8m.result()
     hist = {}
     nontrivial = set()
     disagreements = 0
@@ -988,8 +990,10 @@ def pieces(ctx, harnesses):
     if d8crash:
         report(ctx, "crash:ids65536", "real id table code aborted: %s" % d8crash[2][-300:], {"kind": "ops", "line": d8_lines[0]})
     else:
-        for l, a, b, o in zip_strict(d8_lines, d8i, d8m, d8o):
+        for l, a, b in zip_strict(d8_lines, d8i, d8m):
             bad = monitor_idsrange({"n": int(l.split()[1])}, a)
+            # the witness model (unrepaired limit) is only consulted when something is off: it costs a minute
+            o = driver_lines(ctx, [l.replace("idsrange", "idsrangeold")])[0] if bad or a != b else None
             if bad and a == o:
                 report(ctx, K_D8, "sqfs_id_table accepts 65536 distinct ids; the u16 id_count written to the superblock wraps (%s)" % a,
                               {"kind": "ops", "line": l, "impl": a, "witness_model": o, "repaired_model": b})
@@ -1254,8 +1258,10 @@ def write_tar(t, path):
         # hard links (tar is the only way to get them into an image on the unrepaired tree; pack files: D10)
         files = [p for p in sorted(t.nodes) if t.nodes[p]["type"] == "file"]
         links = {}
-        for k, p in enumerate(files[:6]):
-            ti = tarfile.TarInfo("zz_hardlinks/l%d" % k if k % 2 else "a_hardlink_%d" % k)
+        # every third link sits in a directory that is numbered *before* its target's directory (reorder_hard_links must move
+        # the target in front of it), the others in directories numbered after their targets
+        for k, p in enumerate(files[:4] + files[-4:] if len(files) >= 8 else files[:6]):
+            ti = tarfile.TarInfo(["a_hardlink_%d" % k, "zz_hardlinks/l%d" % k, "a/a/early/l%d" % k][k % 3])
             ti.type, ti.linkname, ti.mtime = tarfile.LNKTYPE, p.lstrip("/"), 0
             tf.addfile(ti)
             links[p] = links.get(p, 0) + 1
@@ -1827,24 +1833,32 @@ def run(ctx):
     ctx.cov["distinct_nontrivial"] = c1.get("nontrivial", 0) + c3.get("images", 0) - c3.get("images_refused", 0) + c4.get("numbering_equal_to_model", 0)
     ctx.cov["disagreements_checked"] = c1.get("disagreements", 0) + c3.get("validator_violation_lines", 0)
     ctx.cov["rule"] = ("writer pieces: generated entry lists (same block / block changes / inode-number jumps of +-32767..70000 / u32 wrap / long names; "
-                       "lengths 1..513 around 256; start offsets around the 8 KiB boundary), meta writer chunk patterns around multiples of 8192 with "
-                       "three test codecs (never shrinks / shrinks constant runs / grows like the unrepaired lz4), process_block over flags x data, id "
-                       "sequences incl. 65535/65536 distinct ids — each through the real C function (ASan+UBSan) and the Lean model, answers compared and "
-                       "checked by independent Python monitors; non-trivial = distinct op line with a non-error, non-empty answer. codec probe: every "
-                       "backend x size class x data kind. images: generated trees (mixed inode kinds/sizes 0,1,bs-1,bs,bs+1,sparse,dup,xattrs; "
-                       "directories of 255..513 (thorough: ..40000) entries, listings around 8 KiB and 64 KiB, 300..65536 ids, 600..1100 xattr sets) x "
-                       "{gzip,xz,lz4,zstd} x block sizes x -T/-e/-j/-B through real gensquashfs and tar2sqfs, validated by the Lean validator and "
-                       "compared with the generated tree; every image that packs counts as non-trivial")
+                       "lengths 1..513 around 256; start offsets around the 8 KiB boundary; listing sizes 65531..65536; 65535..65541 headers) through "
+                       "the real dir writer on a never-shrinking (dirw) and on shrinking, optionally in-memory meta writers with export table (dirx); "
+                       "meta writer chunk patterns around multiples of 8192 with four test codecs (never shrinks / shrinks constant runs / grows like the "
+                       "unrepaired lz4 / shrinks trailing runs, invertible), with and without KEEP_IN_MEMORY; sqfs_write_table over sizes around multiples "
+                       "of 8192 x data kinds x base offsets; process_block + process_completed_block over 15 flag sets (incl. FRAGMENT_BLOCK) x data; inode.c "
+                       "operation sequences with values around 2^32; id sequences incl. 65535/65536 distinct ids; name sequences with repetitions, prefixes "
+                       "and bytes >= 0x80 through fstree_add_generic; trees with hard links to arbitrary files through fstree_post_process; padd_sqfs over "
+                       "device block sizes that are and are not powers of two — each through the real C function (ASan+UBSan) and the Lean model, answers "
+                       "compared and checked by independent Python monitors; non-trivial = distinct op line with a non-error, non-empty answer. codec probe: "
+                       "every backend x size class x data kind. images: generated trees (mixed inode kinds/sizes 0,1,bs-1,bs,bs+1,sparse,dup, xattrs on every "
+                       "inode type; directories of 255..513 (thorough: ..40000) entries, listings around 8 KiB and 64 KiB, 300..65536 ids incl. multi-block id "
+                       "and export tables, 600..1100 xattr sets, hard links that need reorder_hard_links) x {gzip,xz,lz4,zstd} x block sizes x -T/-e/-j x -B "
+                       "(non powers of two in >= 9 images per run) through real gensquashfs and tar2sqfs, validated by the Lean validator and compared with the "
+                       "generated tree incl. file contents; every image that packs counts as non-trivial")
     return ctx.finish(LEVEL, trusted_extra=[
         "harness/unz.c (locates regions from superblock offsets, strips the 2-byte metadata headers, calls zlib/liblzma/liblz4/libzstd); "
         "all structure is decoded in Lean from doc/format.adoc",
         "the validator Sqfs/Model/ImageValidate.lean is the executable statement of the invariants (trusted as a specification, not proved about a whole-writer model)",
-        "modelled, not verified directly: lib/sqfs/src/dir_writer.c (add_entry, get_conseq_entry_count, end, create_inode), meta_writer.c (append, flush), "
-        "block_processor.c process_block, id_table.c id_to_index/write, write_table.c",
+        "the four test codecs of harness/h_c03.c, their Lean mirrors in Driver/C03.lean and their inverses in tools/checks/c03.py",
+        "modelled, not verified directly: dir_writer.c, meta_writer.c, write_table.c, block_processor.c process_block, backend.c process_completed_block "
+        "(size word), id_table.c, fstree.c (insert_sorted, child_by_name, mknode), post_process.c, inode.c (file inodes), finish.c (padd_sqfs, layout arithmetic)",
     ], assumptions=[
         "Codec.Shrinks (do_block returns 0 unless strictly smaller) is a hypothesis of meta_stored_le_unpacked and data_block_size_rule; it is probed on the "
         "real gzip/xz/lz4/zstd backends on every run, not proved (third-party libraries)",
-        "theorems cover the writer's pieces; the composition into a whole image is covered by running the validator on real images only",
+        "link_targets_before_linking_dirs assumes hard links name existing non-directory nodes (what resolve_link enforces; not modelled here)",
+        "theorems cover the writer's pieces; the composition into a whole image is covered by running the validator and the tree/content comparison on real images only",
     ])
 
 
